@@ -91,7 +91,7 @@ func vpH_C12_gate() {
 	if pass {
 		vpAssert(len(recv) == 1 && len(send) == 0, "C12.valid-message-reaches-the-handler-once")
 		if len(recv) == 1 {
-			vpAssert(vpSameObject(<-recv, parsed), "C12.handler-gets-the-parsed-message")
+			vpAssert(vpUnchanged(<-recv, parsed), "C12.handler-gets-the-parsed-message")
 		}
 	} else {
 		vpAssert(len(recv) == 0, "C12.invalid-message-never-reaches-the-handler")
